@@ -148,6 +148,14 @@ package cluster
 //@   ensures ncalls(Put) <= 1 && (ncalls(Put) == 1 ==> lastbytes(Put, 1) == args.Collection.UserId + "/" + args.Collection.Id)
 //@   ensures ncalls(Delete) == 0 && ncalls(ForEach) == 0 && ncalls(RangeScan) == 0
 //@   ensures reply.AlreadyExists || reply.QuotaReached ==> ncalls(Put) == 0
+//@   before Put requires count < args.Collection.UserPlan.MaxCollections
+
+// the scan callback of the quota check counts every record of the user once
+//@ func (*ClusterNode).RPCCreateCollection$1$1
+//@   property C15
+//@   safety -overflow
+//@   modifies count
+//@   ensures result == nil && count == old(count) + 1
 
 //@ func (*ClusterNode).RPCDeleteCollection$1
 //@   property C16
